@@ -105,6 +105,9 @@ func fixed() []rtgen.CaseT {
 		mk(many, G, "/c/5", on), mk(many, G, "/c/list", on), mk(many, G, "/zz/list", on), mk(many, G, "/\xc3\xa9/list", on),
 		mk(many, G, "/s/c", rtgen.EngineT{Compiled: true, BloomSize: 3, BloomK: 2, Version: "v1"}), mk(many, G, "/s/zz", rtgen.EngineT{BloomSize: 1, BloomK: 1, Version: "v1"}),
 		mk(many, "POST", "/s/c", rtgen.EngineT{Compiled: true, BloomSize: 64, BloomK: 12}),
+		mk([]rtgen.RegT{reg(G, "/a/:x ")}, G, "/a/1", on), mk([]rtgen.RegT{reg(G, "/ ")}, G, "/", on),
+		mk([]rtgen.RegT{reg(G, "/u/:id", rtgen.ConsT{Name: "id", Kind: "int"}, rtgen.ConsT{Name: "id", Kind: "where", Arg: "[1-9].*"})}, G, "/u/07", on),
+		mk([]rtgen.RegT{reg(G, "/u/:id", rtgen.ConsT{Name: "uid", Kind: "int"})}, G, "/u/7", on),
 	}
 }
 
